@@ -196,8 +196,8 @@ func (wg *WaitGroup) Wait() {
 	}, Do: func(int) { mc.RaceAcquire(unsafe.Pointer(wg)) }})
 }
 
-// Pool models sync.Pool deterministically: Get returns the most recently Put item
-// (maximal reuse, which is what exposes aliasing bugs), or New() when empty.
+// Pool models sync.Pool: Get returns the most recently Put item (default alternative: maximal
+// reuse, which is what exposes aliasing bugs) or, as a free alternative, a fresh one.
 type Pool struct {
 	New   func() any
 	items []any
@@ -212,8 +212,14 @@ func (p *Pool) Get() any {
 	}
 	var x any
 	got := false
-	mc.Point(&mc.Op{Kind: "pool.Get", Obj: p, Alts: func() int { return 1 }, Do: func(int) {
-		if n := len(p.items); n > 0 {
+	// alternative 0 reuses the most recently Put item, alternative 1 (free) models the pool having dropped it
+	mc.Point(&mc.Op{Kind: "pool.Get", Obj: p, Free: true, Alts: func() int {
+		if len(p.items) > 0 {
+			return 2
+		}
+		return 1
+	}, Do: func(k int) {
+		if n := len(p.items); n > 0 && k == 0 {
 			x, got = p.items[n-1], true
 			p.items = p.items[:n-1]
 			mc.RaceAcquire(unsafe.Pointer(p))
